@@ -17,7 +17,8 @@ MarkerProg == [fam |-> "G9m", prog |-> Program(<<Struct("S", Mod, <<>>, <<SField
                                                  Struct("TupPh", Mod, <<Param("T")>>, <<SField("", u8), SField("", P_Phantom(T))>>),
                                                  Enum("EnumPh", Mod, <<Param("T")>>, <<Variant("A", 0, <<SField("", u8)>>), Variant("B", 1, <<SField("p", P_Phantom(T))>>)>>)>>, <<>>),
                roots |-> <<A0("S")>>]
-Programs == {G1aCase(e, sh, FALSE) : e \in HeapExprs, sh \in {"named", "vunnamed"}} \cup {G1aCase(u32, "named", TRUE), G1aCase(A0("W"), "named", FALSE), G1aCase(u64, "unnamed", FALSE), G1aCase(P_Box(u16), "unnamed", FALSE), MarkerProg} \cup G1c(0)
+Programs == {G1aCase(e, sh, FALSE) : e \in HeapExprs, sh \in {"named", "vunnamed"}} \cup {G1aCase(u32, "named", TRUE), G1aCase(u32, "vnamed", TRUE), G1aCase(u16, "vunnamed", TRUE), G1aCase(u64, "unnamed", TRUE), G1aCase(P_Compact(u8), "vnamed", FALSE),
+                G1aCase(P_Compact(u128), "unnamed", FALSE), G1aCase(A0("W"), "named", FALSE), G1aCase(u64, "unnamed", FALSE), G1aCase(P_Box(u16), "unnamed", FALSE), MarkerProg} \cup G1c(0)
 
 VARIABLES c, S
 Init == /\ c \in Programs
